@@ -19,7 +19,12 @@ import (
 	"verif/internal/xport"
 )
 
-func TestMain(m *testing.M) { harness.Main(m) }
+// (every case is written to disk before it runs: if the library kills the process - unbounded recursion, a fatal runtime error in a
+// goroutine it started - the case that did it is the replay)
+func TestMain(m *testing.M) {
+	harness.EnableJournal()
+	harness.Main(m)
+}
 
 func TestReplay(t *testing.T)  { harness.RunReplay(t) }
 func TestRegress(t *testing.T) { harness.RunRegress(t) }
